@@ -26,16 +26,26 @@ func Unmarshal(result Result, value any, settings ...ContextApply) error {
 
 func unmarshal(result Result, value any, settings ...ContextApply) error {
 	val := reflect.ValueOf(value)
-	typ := val.Type()
 
-	for typ.Kind() == reflect.Pointer {
-		val = val.Elem()
-		typ = typ.Elem()
+	if !val.IsValid() {
+		return fmt.Errorf("unmarshal target must not be nil")
 	}
 
-	kind := typ.Kind()
+	for val.Kind() == reflect.Pointer {
+		if val.IsNil() {
+			return fmt.Errorf("unmarshal target must not be a nil pointer")
+		}
+
+		val = val.Elem()
+	}
+
+	kind := val.Kind()
 
 	if kind == reflect.Struct {
+		if !val.CanAddr() {
+			return fmt.Errorf("struct unmarshals must operate on a pointer to a struct")
+		}
+
 		return unmarshalStruct(result, val.Addr(), settings...)
 	}
 
